@@ -14,7 +14,8 @@ objectSet / newRevision reconcilers and of the ObjectSet controller's revisionRe
 the Go code by the correspondence harness `harness/C07`).  They hold for EVERY history – every
 list `ops` of template edits (incl. reverts and no-op edits), pause/unpause, passes of either
 controller in any interleaving, lost or failed create requests, failed status updates, restarts,
-archival / garbage collection of old revisions, foreign ObjectSets squatting on the next name,
+archival / garbage collection of old revisions, changes of `spec.revisionHistoryLimit` (any value,
+incl. 0 and absent), foreign ObjectSets squatting on the next name,
 passes whose cache does not yet show the deployment's own latest create – for every initial
 template `t` and for EVERY hash function `c.h` (injective or not: real hash collisions included).
 
@@ -107,6 +108,7 @@ theorem after_non_od (s : State) (op : Op) (h : isOd (some op) = false) :
   | edit k => refine ⟨rfl, ?_⟩; simp only [after, exec, step]; split <;> rfl
   | pause b => exact ⟨rfl, rfl⟩
   | restart => exact ⟨rfl, rfl⟩
+  | limit l => exact ⟨rfl, rfl⟩
   | arch i =>
     refine ⟨rfl, ?_⟩; simp only [after, exec, step]
     split
@@ -245,6 +247,7 @@ theorem created_counts_succ (s : State) (op : Op) :
     | squat d owned arch spec rev prev => simp only [step, ctxOf]; split <;> simp
     | pause b => simp [step, ctxOf]
     | restart => simp [step, ctxOf]
+    | limit l => simp [step, ctxOf]
   · subst h
     have hctx : (ctxOf s (.od f v sf)).epochCreates = s.created := rfl
     have hreq : (after c s (.od f v sf)).reqs = (odPass c s f v sf).reqs := rfl
@@ -602,6 +605,37 @@ theorem model_satisfies_monitor (hl : c.legacy = false) (hr : c.racy = false) (t
         exact hnone (hacts hp ht hres hrep tH hth hnew)
   rw [if_neg h1, if_neg h2, if_neg h3, if_neg h4]
 
+/-! ### spec.revisionHistoryLimit -/
+
+/-- Is the operation a change of `spec.revisionHistoryLimit`? -/
+def isLimit : Op → Bool
+  | .limit _ => true
+  | _ => false
+
+/-- **limit_irrelevant**: `spec.revisionHistoryLimit` (operation `limit l`, any value, `none` = absent)
+has no influence on what the ObjectDeployment controller creates: a history and the same history
+with all limit changes removed end in the same state (same ObjectSets, same previous lists, same
+revision numbers, same collision counter).  Together with
+`created_spec_eq_template_and_previous_all` (which holds for every history, limit changes
+included): the previous list of a new ObjectSet names EVERY existing ObjectSet of the deployment,
+however many there are compared to the history limit – the limit only bounds what the archiver's
+garbage collection (environment operation `del`) keeps. -/
+theorem limit_irrelevant (s : State) (ops : List Op) :
+    run c s (ops.filter (fun op => !isLimit op)) = run c s ops := by
+  induction ops generalizing s with
+  | nil => rfl
+  | cons op ops ih =>
+    cases op with
+    | limit l => simpa [isLimit, run, List.foldl, step] using ih s
+    | edit k => simpa [isLimit, run, List.foldl] using ih _
+    | pause b => simpa [isLimit, run, List.foldl] using ih _
+    | od f v sf => simpa [isLimit, run, List.foldl] using ih _
+    | os i => simpa [isLimit, run, List.foldl] using ih _
+    | arch i => simpa [isLimit, run, List.foldl] using ih _
+    | del i => simpa [isLimit, run, List.foldl] using ih _
+    | squat d owned arch spec rev prev => simpa [isLimit, run, List.foldl] using ih _
+    | restart => simpa [isLimit, run, List.foldl] using ih _
+
 /-! ### the fix and the assumption are both needed -/
 
 /-- The configuration the driver uses: an injective hash. -/
@@ -661,6 +695,20 @@ example :
     s.cc = 1 ∧ s.log = [1, 2, 3] ∧
     s.sets.map (fun o => (o.name, o.spec, o.rev, o.archived, o.prev)) =
       [(100, 1, 1, false, []), (200, 2, 2, false, [100]), (101, 1, 3, false, [100, 200])] := by
+  decide
+
+
+/-- Non-vacuity for `spec.revisionHistoryLimit`: with the limit set to 0 ("keep no old revisions") and
+four templates rolled out in a row, none of the revisions archived or garbage collected (so more
+ObjectSets exist than the limit at every creation), every new ObjectSet names ALL existing ones and
+the revisions are 1, 2, 3, 4. -/
+example :
+    let s := run (demoCfg false false) (init 1)
+      [.limit (some 0), .od .none .fresh false, .os 0, .edit 2, .od .none .fresh false, .os 1, .limit (some 1),
+       .edit 3, .od .none .fresh false, .os 2, .limit none, .edit 4, .od .none .fresh false, .os 3]
+    s.cc = 0 ∧ s.log = [1, 2, 3, 4] ∧
+    s.sets.map (fun o => (o.name, o.rev, o.prev)) =
+      [(100, 1, []), (200, 2, [100]), (300, 3, [100, 200]), (400, 4, [100, 200, 300])] := by
   decide
 
 end Pko.Props.C07
